@@ -203,7 +203,7 @@ func Main(args []string) int {
 		"search": "deviation-bounded breadth-first search, all successors of every new state, dedup on configuration + height + recent block times + deviations spent + restart age + digest of the reward, delegation-reward, delegation and pool-balance records",
 	})
 	rep.Assume("block times advance by at least one second per block (Tendermint's default TimeIotaMs = 1000, which the repository's genesis generator uses): a calculation cycle never lasts 0 seconds")
-	rep.Assume("powers change only through the two power distributions, the delegation pool sizes and (thorough tier, two configurations) one UNSTAKE that lowers V2's power or drops it out of the validator set; no validator joins")
+	rep.Assume("powers change only through the two power distributions, the delegation pool sizes and (one quick configuration, two more in the thorough tier) an UNSTAKE that lowers V2's power or drops it out of the validator set and a STAKE that raises it; no validator joins")
 	rep.Assume("'pulled' is read from the real PullRewards of a fresh RewardCumulativeStore on the committed state before the block (what a node restarted at that point pulls); the running node's own figure is not observable and is covered through credited <= pulled and the restart twins")
 	rep.Assume("drawing from the next year inside YearCloseWindow, and skipping a year in which the forecast fits no block, are treated as the schedule's own rules (configuration options), not as violations")
 	rep.Assume("a WITHDRAW_REWARD counts as accepted when DeliverTx returns code 0 (CheckTx runs on the previous block's state and may disagree)")
@@ -211,9 +211,7 @@ func Main(args []string) int {
 	// vacuity: every operation must be accepted somewhere (except the one that must always fail)
 	var never []string
 	ops := []string{opDelegSmall, opDelegBig, opUndelegBig, opDonateDeleg, opDonateRewards, opWOne, opWAll}
-	if !quick {
-		ops = append(ops, opUnstake)
-	}
+	ops = append(ops, opUnstake, opStakeMore)
 	if K >= 1 && boundDone >= 1 {
 		for _, op := range ops {
 			if st.Info["accepted."+op] == 0 {
